@@ -53,6 +53,18 @@ func hasTag(tags []string, p string) bool {
 	return false
 }
 
+// modelText: what the engine assumes where it models a library function or a language feature natively
+var modelText = map[string]string{
+	"strconv.ParseInt":   "strconv.ParseInt(s, 10, k) succeeds exactly when s is a numeral (an optional sign, then ASCII digits: uf_isnum) whose value fits k bits, and returns uf_numval(s); other bases unconstrained",
+	"strings.ToLower":    "strings.ToLower on a text of ASCII bytes only keeps the length and maps A-Z to a-z; nothing is assumed for other texts",
+	"strings.IndexByte":  "strings.IndexByte returns the first position holding the byte, or -1 when no position does",
+	"strings.HasPrefix":  "strings.HasPrefix with a constant prefix: length and bytes; with a variable prefix an uninterpreted function of the two strings",
+	"numerals":           "numeral vocabulary: a text that is z zeros followed by the decimal text of n (uf_utext), or a sign and the decimal text of n (uf_stext), is a numeral of that value - strconv.ParseInt and (big.Int).SetString read what strconv.AppendInt/AppendUint and (big.Int).Append write; the characters uf_dchar of a decimal text are ASCII digits",
+	"fmt.State":          "fmt.State: Write appends to a ghost log of the state; Flag, Width and Precision are fixed attributes of the state; a callee handed the state may write to it (its log is then what the callee's contract says)",
+	"type-switch":        "type switch / v, ok := x.(T) for string, []byte, int64, float64: ok iff the dynamic-type tag of the interface value is T's; the tag and the wrapped string are recorded where the code wraps a value in an interface",
+	"strings":            "strings are immutable sequences of bytes: strlen/strbyte of a string code, exact for constants, related through indexing, slicing, concatenation, conversion from and to []byte and append",
+}
+
 var notCovered = map[string][]string{
 	"C01": {"that setString produced the value denoted by the text (string reasoning, see C14); Precision 0 outside [MinExponent, MaxExponent] (the property gives no rule)"},
 	"C02": {"Sqrt's 'Inexact iff the root is not exactly representable' (accuracy of the iteration, see C11); exact values of Rounded/Clamped (checked only through implications, as the property prescribes)"},
@@ -120,6 +132,7 @@ func cmdCheck(args []string) {
 	funcs := map[string]bool{}
 	trusted := map[string]string{}
 	libs := map[string]bool{}
+	models := map[string]bool{}
 	uncontracted := map[string]bool{}
 	localAssumes := map[string]string{}
 	unsupported := map[string][]string{}
@@ -204,6 +217,17 @@ func cmdCheck(args []string) {
 		for _, n := range vc.notes {
 			if strings.HasPrefix(n, "library:") {
 				libs[strings.TrimPrefix(n, "library:")] = true
+			}
+			if strings.HasPrefix(n, "model:") {
+				models[strings.TrimPrefix(n, "model:")] = true
+			}
+		}
+		for k := range vc.declared {
+			if strings.HasPrefix(k, "model-note:") {
+				models[strings.TrimPrefix(k, "model-note:")] = true
+			}
+			if k == "strbyte" {
+				models["strings"] = true
 			}
 		}
 		for n, cl := range vc.fc.LocalAssume {
@@ -381,7 +405,12 @@ func cmdCheck(args []string) {
 		assumptions = append(assumptions, "assumed on a float-derived local: "+n+": "+s)
 	}
 	for n := range libs {
-		assumptions = append(assumptions, "library call modelled as pure with unconstrained result: "+n)
+		if !models[n] {
+			assumptions = append(assumptions, "library call modelled as pure with unconstrained result: "+n)
+		}
+	}
+	for n := range models {
+		assumptions = append(assumptions, "assumed model of a library function or language feature (engine built-in): "+modelText[n])
 	}
 	for n := range uncontracted {
 		assumptions = append(assumptions, "callee without contract (whole heap havocked at the call): "+n)
@@ -389,7 +418,7 @@ func cmdCheck(args []string) {
 	for n, us := range unsupported {
 		assumptions = append(assumptions, fmt.Sprintf("constructs outside the subset in %s (values unconstrained): %s", n, strings.Join(us, "; ")))
 	}
-	assumptions = append(assumptions, "machine integers: Go's wrap-around semantics are modelled exactly; floats and strings other than Rounder constants are unconstrained")
+	assumptions = append(assumptions, "machine integers: Go's wrap-around semantics are modelled exactly; floats are unconstrained; strings are codes with a length and bytes (see the string model); values of the named string type Rounder are compared as codes")
 	sort.Strings(assumptions)
 	// V vacuity guard, S safety, F frame, R postcondition/assert, L loop, T delegation, G lemma/hint, D destination definedness and operand freshness
 	byClass := map[string]int{}
